@@ -149,6 +149,8 @@ func parseSegments(version string) ([]segment, error) {
 
 	// Add prerelease segments
 	if prereleasePart != "" {
+		// RubyGems reads "-" as ".pre."
+		segments = append(segments, createSegment("pre"))
 		prereleaseParts := strings.Split(prereleasePart, ".")
 		for _, part := range prereleaseParts {
 			if part != "" {
